@@ -138,7 +138,7 @@ def judge(res: Res, rom: str, m: str, d: int, place: int, form: str, reloc: str)
         res.count("unjudged_unmapped")
         return
     same_bank = (run >> 16) == (target >> 16)
-    in_window = (target & 0xFFFF) >= r_tgt["win"] and (run & 0xFFFF) >= r_run["win"] and (run & 0xFFFF) <= 0xFFFE
+    in_window = (target & 0xFFFF) >= r_tgt["wlo"] and (run & 0xFFFF) >= r_run["wlo"] and (run & 0xFFFF) <= 0xFFFE
     if not same_bank or not in_window:
         res.count("unjudged_cross_bank_or_window")
         return
